@@ -28,11 +28,12 @@ MsgOf(src) == CASE src = "pre" -> E.msgs.pre [] src = "l1" -> E.msgs.l1 [] src =
 Shows == LET m == MsgOf(Src) IN
          m.known => ER!MessageShown(m.lines, Printed)
 Obs == [status |-> E.o.status, escaped |-> E.o.escaped, calls |-> E.o.calls, reported |-> SomethingPrinted, shows |-> Shows]
-What == Eff(E.env).t \o ":" \o Eff(E.env).k \o Eff(E.env).v \o "@" \o Src
+\* short: TLC breaks printed tuples of more than ~80 characters over several lines
+What == Eff(E.env).k \o Eff(E.env).v \o "@" \o Src
 
 TRun == /\ l <= Len(T) /\ E.op = "run" /\ Adv
         /\ Check(tid, l, "H.env", "", E.env.line \in Lines /\ E.env.verb \in 0..3 /\ Len(E.env.listeners) <= 3)
-        /\ Check(tid, l, "P.contained", E.o.escaped \o "/" \o What, Contained(E.env, Obs))
+        /\ Check(tid, l, "P.contained", What, Contained(E.env, Obs))
         /\ Check(tid, l, "P.status.zero", What, ZeroIff(E.env, Obs))
         /\ Check(tid, l, "P.status.clamp", What, Clamped(E.env, Obs))
         /\ Check(tid, l, "P.interrupt", What, Interrupt(E.env, Obs))
